@@ -320,3 +320,12 @@ Definition qlist_eqb (a b : list Q) : bool := list_eqb Qeq_bool a b.
 (* TrotterizedExponential on an adiabatic Hamiltonian: circuit(dt, t) at the step time, then the setter *)
 Definition trotter_eval_times (t0 T dt : Q) : list Q :=
   qtime t0 dt 0 :: flat_map (fun j => [qtime t0 dt j; qtime t0 dt (S j)]) (seq 0 (qsteps t0 T dt)).
+
+(* ------------------------------------------------------------------ StateEvolution.execute as a trace of operations *)
+(* calculate_callbacks(state); for each step: state = solver(state); if callbacks: normalize, callbacks;
+   finally state = normalize_state(state) (the identity for non-RK solvers, state / ||state|| for rk4 / rk45) *)
+Inductive xop := XCb | XStep | XNorm.
+Definition xop_eqb (a b : xop) : bool :=
+  match a, b with XCb, XCb | XStep, XStep | XNorm, XNorm => true | _, _ => false end.
+Definition execute_trace (callbacks : bool) (n : nat) : list xop :=
+  XCb :: concat (repeat (XStep :: (if callbacks then [XNorm; XCb] else [])) n) ++ [XNorm].
